@@ -470,6 +470,13 @@ func genCase(t *rapid.T) Case {
 	}
 	// both renders must consume the same draws: draw positions once via a tiny cache
 	c.A = renderTwice(t, render, text, &c.B)
+	// line endings: file-level control comments are read from raw lines, which still hold the line break
+	if rapid.IntRange(0, 3).Draw(t, "crlf") == 0 {
+		c.A, c.B = strings.ReplaceAll(c.A, "\n", "\r\n"), strings.ReplaceAll(c.B, "\n", "\r\n")
+	}
+	if rapid.IntRange(0, 5).Draw(t, "nofinalnl") == 0 {
+		c.A, c.B = strings.TrimRight(c.A, "\r\n"), strings.TrimRight(c.B, "\r\n")
+	}
 	return c
 }
 
@@ -524,7 +531,19 @@ func drive(t *testing.T) {
 	})
 }
 
-func knownClass(c Case) string { return "" }
+// knownClass: the structural classes of listed findings.
+//
+//	crlf-rule-level-comment  the file has CRLF line endings and the control comment is a rule-level one
+//	                         (disable / snooze): yaml.v3 loses or re-attaches comments in some CRLF layouts
+//	                         (a comment above a list item whose mapping holds another comment), so pint
+//	                         never sees the control comment.  File-level forms are read by pint's own line
+//	                         reader and stay judged.
+func knownClass(c Case) string {
+	if strings.Contains(c.A, "\r\n") && !strings.HasPrefix(c.Form, "file/") {
+		return "crlf-rule-level-comment"
+	}
+	return ""
+}
 
 func TestPropComments(t *testing.T) { drive(t) }
 
